@@ -78,6 +78,10 @@ MUTANTS = [
     ('multivector.py', "elif isinstance(ll, (float, int)) and ll > 0:", "elif isinstance(ll, (float, int)) and ll >= 0:", 'exp', 'exp, s == 0'),
     ('multivector.py', "        if ll.grades and ll.grades != (0,):", "        if False:", 'exp', 'raises NotImplementedError'),
     ('multivector.py', "        return self * sinhc(l) + cosh(l)", "        c = cosh(l)\n        return c + self * sinhc(l)", 'exp', 'pass'),
+    ('multivector.py', "        for i in range(1, power):\n            res = res.gp(x)\n        return res",
+     "        res, sq, n = None, x, power\n        while n:\n            if n & 1:\n                res = sq if res is None else res.gp(sq)\n            n >>= 1\n            if n:\n                sq = sq.gp(sq)\n        return res", 'pow', 'pass'),   # correct square-and-multiply
+    ('multivector.py', "        for i in range(1, power):\n            res = res.gp(x)\n        return res",
+     "        for i in range(2, power):\n            res = res.gp(x)\n        return res", 'pow', 'a product of exactly'),
     # ---- harmless refactorings: must stay green (no VIOLATION); out-of-subset is acceptable (undecided), refutation is a false alarm
     ('codegen.py', "            termstr = vx * vy if sign > 0 else (- vx * vy)\n            if key_out in res:\n                res[key_out] += termstr\n            else:\n                res[key_out] = termstr",
      "            term = vx * vy if sign > 0 else (- vx * vy)\n            if key_out not in res:\n                res[key_out] = term\n            else:\n                res[key_out] = res[key_out] + term", 'codegen', 'pass'),
@@ -121,6 +125,9 @@ def build_group(H, group):
         AC.vc_new(H)
     elif group == 'tape':
         T.vc_tape_operators(H)
+    elif group == 'pow':
+        from contracts import misc_c as MC
+        MC.vc_pow(H); T.vc_tape_pow(H)
     elif group == 'exp':
         from contracts import misc_c as MC
         MC.vc_exp(H)
